@@ -697,8 +697,9 @@ void mmd_export_token_html(DString * out, const char * source, token * t, scratc
 					break;
 				}
 
-				print_const("<pre><code");
-				printf(" class=\"%s\"", temp_char);
+				print_const("<pre><code class=\"");
+				mmd_print_string_html(out, temp_char, false, false);
+				print_const("\"");
 				free(temp_char);
 			} else {
 				print_const("<pre><code");
